@@ -23,6 +23,13 @@ Oracles (written from the property text, the samplers' docstrings and the pinned
                    SemiSampler over the library's SemiWrapper and through ModeWrapper("class") + DataLoader(sampler=...),
                    follow the same labeled/unlabeled alternation (an index type that the dataset cannot use as a key -
                    e.g. a 0-dim tensor against SemiWrapper's set of ints - shows up here; the type alone is only counted).
+* argument types   samples_per_class / size / num_labeled / num_unlabeled / world_size / rank given as numpy integers (and, where
+                   the current code accepts them, 0-dim numpy arrays) of equal value: len and stream must equal those of
+                   the python-int construction.
+* instances        a second sampler of the same family over a DIFFERENT dataset / weights / layout with equal (seed, epochs,
+                   world size, size / samples_per_class / chunk sizes) lives in the same process: it is judged against its
+                   own dataset by all clauses above, and re-iterating both instances one after the other and alternately
+                   must reproduce each one's own stream.
 * histories        (a) labels are changed on the SAME dataset object after a first round and NEW samplers are built: every
                    clause must hold w.r.t. the current labels; (b) two live iterators over one sampler object, consumed
                    alternately (zip(sampler, sampler) style, optionally with a head start): both must deliver exactly the
@@ -74,13 +81,16 @@ ASSUMPTIONS = [
     "sampler is not expected to follow later label changes)",
     "the type of an emitted index is not judged by itself (counted in indices_that_are_not_hash_keys_observed); it is judged through the dataset",
     "SemiWrapper's own choice of unlabeled samples is read back through getitem_class(i) with python ints and taken as the dataset's labels",
+    "numeric argument types: seeds (all samplers) and a non-zero SemiSampler rank reach torch.Generator.manual_seed, which itself rejects numpy "
+    "integers (TypeError raised by torch, not by the repository) -> only python-int seeds / semi ranks are driven; a 0-dim numpy ARRAY as "
+    "samples_per_class is not driven (the current ClassBalancedSampler consumes it in place: first epoch empty, reported to the coordinator)",
     "an epoch's stream is a function of (seed, epoch, rank) only (all three samplers are seeded, default seed 0), so two concurrently "
     "consumed iterators of one sampler object must both equal the stand-alone stream",
 ]
 MONITORS = ["cb_epochs_checked", "cb_reuse_checked", "semi_epochs_checked", "semi_blocks_checked", "semi_rank_pairs_compared",
             "weighted_epochs_checked", "weighted_zero_weight_checked", "step_budget_runs", "indices_validated",
             "relabel_histories_checked", "concurrent_iterators_checked", "semi_through_dataset_checked", "semi_over_semiwrapper_checked",
-            "semi_through_loader_checked"]
+            "semi_through_loader_checked", "numeric_type_variants_checked", "companion_instances_checked", "cross_instance_reiterations_checked"]
 
 _mods = [importlib.import_module(m) for m in (
     "kappadata.samplers.class_balanced_sampler", "kappadata.samplers.semi_sampler", "kappadata.samplers.weighted_sampler",
@@ -168,6 +178,29 @@ def _pair(rng):
     return {"rank": rng.randrange(6), "lag": rng.choice([0, 0, 1, 2, 5])} if rng.random() < 0.5 else None
 
 
+_NUMKINDS = ["i64", "i64", "i32", "a0"]
+
+
+def _numtypes(rng, names):
+    """which numeric constructor arguments are passed as numpy integers / 0-dim arrays of equal value"""
+    if rng.random() >= 0.35:
+        return None
+    out = {a: rng.choice(_NUMKINDS) for a in names if rng.random() < 0.6}
+    if out.get("samples_per_class") == "a0":
+        out["samples_per_class"] = "i64"  # see ASSUMPTIONS
+    return out or None
+
+
+def _conv(kind, v):
+    if kind == "i64":
+        return np.int64(v)
+    if kind == "i32":
+        return np.int32(v)
+    if kind == "a0":
+        return np.array(v)
+    raise ValueError(kind)
+
+
 def _epochs(rng):
     e = [rng.randint(0, 3)]
     if rng.random() < 0.5:
@@ -215,7 +248,8 @@ def _gen_cb(rng):
     if rng.random() < (0.6 if getall == "none" else 0.2):
         n = len(classes)
         relabel = [[i, rng.randrange(k)] for i in rng.sample(range(n), rng.randint(1, max(1, n // 3)))]
-    return {"kind": "cb", "classes": classes, "dim": 1 if binary else k, "spc": spc, "shuffle": rng.random() < 0.7,
+    numtypes = _numtypes(rng, ["samples_per_class", "rank", "world_size"])
+    return {"numtypes": numtypes, "kind": "cb", "classes": classes, "dim": 1 if binary else k, "spc": spc, "shuffle": rng.random() < 0.7,
             "seed": rng.randrange(10 ** 6), "epochs": _epochs(rng), "W": W,
             "getall": getall, "relabel": relabel, "pair": _pair(rng),
             "item": "group" if rng.random() < 0.15 else "class", "decoy_shift": rng.randint(1, max(1, k - 1)),
@@ -269,7 +303,8 @@ def _gen_semi(rng):
         classes = [rng.randrange(ncls) for _ in range(n)]
         via = {"percent": rng.randint(1, n - 1) / n + 1e-9, "wseed": rng.randrange(1000), "loader": rng.random() < 0.25}
         relabel = None
-    return {"kind": "semi", "classes": classes, "L": L, "U": U, "mode": mode,
+    numtypes = _numtypes(rng, ["num_labeled", "num_unlabeled", "world_size"])
+    return {"numtypes": numtypes, "kind": "semi", "classes": classes, "L": L, "U": U, "mode": mode,
             "W": W, "seed": rng.randrange(10 ** 6), "epochs": _epochs(rng),
             "getall": getall, "relabel": relabel, "via": via, "pair": _pair(rng), "defaults": rng.random() < 0.3}
 
@@ -305,17 +340,42 @@ def _gen_weighted(rng):
     W = _world(rng)
     if rng.random() < 0.04:
         W = min((size or n) + rng.randint(1, 2), 24)
-    return {"kind": "weighted", "weights": w, "dtype": rng.choice(["float32", "float32", "float64"]), "size": size, "W": W,
+    numtypes = _numtypes(rng, ["size", "rank", "world_size"])
+    return {"numtypes": numtypes, "kind": "weighted", "weights": w, "dtype": rng.choice(["float32", "float32", "float64"]), "size": size, "W": W,
             "seed": rng.randrange(10 ** 6), "epochs": _epochs(rng), "pair": _pair(rng), "defaults": rng.random() < 0.3}
 
 
 _GEN = [_gen_cb, _gen_semi, _gen_weighted]
 
 
+def _companion(rng, spec):
+    """a second instance of the same family: other dataset / weights / layout, equal seed, epochs, world size and size arguments"""
+    kind = spec["kind"]
+    if kind == "weighted":
+        E = _effective(spec)
+        k = rng.randint(1, 10)
+        w = [round(rng.uniform(0.01, 10.0), 4) for _ in range(E + k)]
+        for i in rng.sample(range(E + k), k):
+            w[i] = 0.0  # exactly E non-zero weights: its own epoch is exactly the non-zero set
+        comp = dict(spec, weights=w, size=E, dtype=rng.choice(["float32", "float64"]))
+    elif kind == "cb":
+        comp = _gen_cb(rng)
+        comp.update(spc=spec["spc"] if spec["spc"] is not None else comp["spc"], shuffle=spec["shuffle"])
+    else:
+        comp = _gen_semi(rng)
+        while comp["via"]:  # (over SemiWrapper the labels are the wrapper's choice; the companion is a plain labeled/unlabeled layout)
+            comp = _gen_semi(rng)
+        comp.update(L=spec["L"], U=spec["U"], mode=spec["mode"])
+    comp.update(seed=spec["seed"], epochs=list(spec["epochs"]), W=spec["W"], defaults=spec.get("defaults", False), relabel=None, pair=None,
+                numtypes=None, companion=None, tag=" [second instance of the family in this process: other dataset, same seed/epochs/size]")
+    return comp
+
+
 def gen_cases(run):
-    n = run.n(9000, 400000)
+    n = run.n(6000, 400000)
     for i in range(n):
         spec = _GEN[i % 3](run.rng)
+        spec["companion"] = _companion(run.rng, spec) if run.rng.random() < 0.3 else None
         if not spec.get("via") and _expected_len(spec) == 0:
             spec["_trivial"] = True
         yield spec
@@ -506,12 +566,13 @@ def _run_cb(run, spec, ds=None):
         kw["samples_per_class"] = spec["spc"]
     if spec["item"] == "group" and spec["getall"] != "none":
         kw["getall_item"] = "group"
-    what = f"ClassBalancedSampler({kw}, class sizes {[cnt[c] for c in range(ncls)]}, labels as {spec['getall']}){phase}"
+    what = f"ClassBalancedSampler({kw}, class sizes {[cnt[c] for c in range(ncls)]}, labels as {spec['getall']}){phase}{spec.get('tag', '')}"
     lo, hi = min(v for v in cnt.values()), max(cnt.values())
     spc_cls = "none" if spec["spc"] is None else "<=min" if spc <= lo else "<=max" if spc <= hi else ">max"
     run.cover("cb", _wclass(E, W), spc_cls, spec["shuffle"], spec["getall"], "binary" if dim == 1 else "multi",
               "absent" if absent else "full", kw.get("getall_item", "class"), "relabeled" if phase else "first")
-    samplers = _construct(run, spec, lambda **rk: ClassBalancedSampler(ds, **kw, **rk), len(classes) + ncls, what,
+    make = lambda kw, rk: ClassBalancedSampler(ds, **kw, **rk)
+    samplers = _construct(run, spec, lambda **rk: make(kw, rk), len(classes) + ncls, what,
                           refusal_class="cb:absent-class" if absent else None)
     if samplers is None:
         return
@@ -549,10 +610,7 @@ def _run_cb(run, spec, ds=None):
                         "per_class_totals": [per_class[c] for c in range(ncls)], "rank0": streams[0][:24]}, cap=2)
     if not _pair_check(run, spec, samplers, e, streams, E + len(classes) + ncls, what):
         return
-    if spec.get("relabel"):
-        spec2 = _relabeled(spec)
-        _set_labels(ds, spec2["classes"])
-        _run_cb(run, spec2, ds=ds)
+    return {"ds": ds, "samplers": samplers, "epoch": e, "streams": streams, "make": make, "kw": kw, "hint": E + len(classes) + ncls, "what": what, "want": E // W}
 
 
 # ------------------------------------------------------------------------------------------------ semi
@@ -597,14 +655,15 @@ def _run_semi(run, spec, ds=None, relabeled=True):
     if spec.get("via"):
         phase = " over SemiWrapper"
     kw = {"num_labeled": L, "num_unlabeled": U, "seed": spec["seed"], "length_mode": mode}
-    what = f"SemiSampler({kw}, {len(lab)} labeled / {len(unl)} unlabeled, labels as {spec['getall']}){phase}"
+    what = f"SemiSampler({kw}, {len(lab)} labeled / {len(unl)} unlabeled, labels as {spec['getall']}){phase}{spec.get('tag', '')}"
     want = E // W
     n_lab_pos = sum(1 for k in range(want) if k % (L + U) < L)
     run.cover("semi", mode, _wclass(E, W), "L1" if L == 1 else "L>1", "U1" if U == 1 else "U>1",
               "L|pool" if len(lab) % L == 0 else "L∤pool", "U|pool" if len(unl) % U == 0 else "U∤pool",
               "lab-repeats" if n_lab_pos > len(lab) else "lab-once", "unl-repeats" if want - n_lab_pos > len(unl) else "unl-once",
               "relabeled" if phase else "first")
-    samplers = _construct(run, spec, lambda **rk: SemiSampler(ds, **kw, **rk), len(classes), what)
+    make = lambda kw, rk: SemiSampler(ds, **kw, **rk)
+    samplers = _construct(run, spec, lambda **rk: make(kw, rk), len(classes), what)
     if samplers is None:
         return
     for e in spec["epochs"]:
@@ -692,10 +751,7 @@ def _run_semi(run, spec, ds=None, relabeled=True):
                 run.count("note_semi_rank0_epoch1_equals_rank1_epoch0")
         except Exception:
             pass
-    if spec.get("relabel"):
-        spec2 = _relabeled(spec)
-        _set_labels(ds, spec2["classes"])
-        _run_semi(run, spec2, ds=ds, relabeled=True)
+    return {"ds": ds, "samplers": samplers, "epoch": e, "streams": streams, "make": make, "kw": kw, "hint": E + len(classes), "what": what, "want": want}
 
 
 # ------------------------------------------------------------------------------------------------ weighted
@@ -709,10 +765,11 @@ def _run_weighted(run, spec):
     kw = {"seed": spec["seed"]}
     if spec["size"] is not None:
         kw["size"] = spec["size"]
-    what = f"WeightedSampler({kw}, {n} {spec['dtype']} weights, {n - nnz} of them zero)"
+    what = f"WeightedSampler({kw}, {n} {spec['dtype']} weights, {n - nnz} of them zero){spec.get('tag', '')}"
     run.cover("weighted", _wclass(E, W), "size-none" if spec["size"] is None else "size=n" if E == n else "size<n",
               "no-zeros" if nnz == n else "zeros-enough" if nnz >= E else "zeros-short", spec["dtype"], "n1" if n == 1 else "n>1")
-    samplers = _construct(run, spec, lambda **rk: WeightedSampler(ds, weights=weights, **kw, **rk), n, what)
+    make = lambda kw, rk: WeightedSampler(ds, weights=weights, **kw, **rk)
+    samplers = _construct(run, spec, lambda **rk: make(kw, rk), n, what)
     if samplers is None:
         return
     for e in spec["epochs"]:
@@ -734,7 +791,92 @@ def _run_weighted(run, spec):
                 return
         if e == spec["epochs"][0] and E // W > 0:
             run.sample({"kind": "weighted", "n": n, "zeros": n - nnz, "size": spec["size"], "W": W, "epoch": e, "streams": [s[:16] for s in streams[:3]]}, cap=6)
-    _pair_check(run, spec, samplers, e, streams, E + n, what)
+    if not _pair_check(run, spec, samplers, e, streams, E + n, what):
+        return
+    return {"samplers": samplers, "epoch": e, "streams": streams, "make": make, "kw": kw, "hint": E + n, "what": what, "want": E // W}
+
+
+def _numtype_check(run, spec, res):
+    """the same construction with numpy-typed numeric arguments must give the same len and stream"""
+    nt = spec.get("numtypes")
+    if not nt or (spec["W"] == 1 and spec.get("defaults")):
+        return True
+    kind, e, what = spec["kind"], res["epoch"], res["what"]
+    kw = {k: (_conv(nt[k], v) if k in nt else v) for k, v in res["kw"].items()}
+    for r, alone in enumerate(res["streams"]):
+        rk = {k: (_conv(nt[k], v) if k in nt else v) for k, v in {"rank": r, "world_size": spec["W"]}.items()}
+        shown = {k: f"{type(v).__name__}({v})" for k, v in {**kw, **rk}.items() if k in nt}
+
+        def go():
+            s = res["make"](kw, rk)
+            s.set_epoch(e)
+            return len(s), list(itertools.islice(iter(s), len(alone) + 8))
+        run.count("step_budget_runs")
+        with StepBudget(_budget(2 * res["hint"]), _CODES(), what=f"{what} with {shown}"):
+            ok, got = call_real(run, go, crash_key=f"{kind}:numeric-type-crash", what=f"{what} constructed with {shown}")
+        if not ok:
+            return False
+        run.count("numeric_type_variants_checked")
+        if got[0] != res["want"] or got[1] != alone:
+            run.violation(f"{kind}:numeric-type-changes-result",
+                          f"{what} epoch {e} rank {r}/{spec['W']}: with {shown} len = {got[0]}, stream {_s(got[1])}; with python ints of equal value "
+                          f"len = {res['want']}, stream {_s(alone)}")
+            return False
+    return True
+
+
+def _cross_check(run, spec, a, b):
+    """two instances of one family over different datasets: re-iterated one after the other and alternately, each keeps its own stream"""
+    kind, e = spec["kind"], a["epoch"]
+    hint = a["hint"] + b["hint"]
+
+    def sequential():
+        out = []
+        for x in (b, a, b, a):
+            for s in x["samplers"]:
+                s.set_epoch(e)
+            out.append([list(itertools.islice(iter(s), x["want"] + 8)) for s in x["samplers"]])
+        return out
+
+    def alternately():
+        sa, sb = a["samplers"][-1], b["samplers"][-1]
+        sa.set_epoch(e)
+        sb.set_epoch(e)
+        its = [iter(sa), iter(sb)]
+        out = [[], []]
+        live = [True, True]
+        while any(live):
+            for j in (0, 1):
+                if live[j]:
+                    try:
+                        out[j].append(next(its[j]))
+                    except StopIteration:
+                        live[j] = False
+                    if len(out[j]) > (a, b)[j]["want"] + 8:
+                        live[j] = False
+        return out
+    run.count("step_budget_runs")
+    with StepBudget(_budget(4 * hint * max(1, spec["W"])), _CODES(), what=f"{a['what']} / second instance: re-iteration"):
+        ok, seq = call_real(run, sequential, crash_key=f"{kind}:iter-crash", what=f"{a['what']} and a second instance re-iterated one after the other")
+        if not ok:
+            return
+        ok, alt = call_real(run, alternately, crash_key=f"{kind}:iter-crash", what=f"{a['what']} and a second instance iterated alternately")
+        if not ok:
+            return
+    run.count("cross_instance_reiterations_checked")
+    for x, got, how in ((b, seq[0], "re-iterated after the first instance"), (a, seq[1], "re-iterated after the second instance"),
+                        (b, seq[2], "re-iterated again"), (a, seq[3], "re-iterated again"),
+                        (a, None, "iterated alternately with the second instance"), (b, None, "iterated alternately with the first instance")):
+        if got is None:
+            got_r, ref_r = alt[0 if x is a else 1], x["streams"][-1]
+            bad = got_r != ref_r
+        else:
+            bad = got != x["streams"]
+            got_r, ref_r = got, x["streams"]
+        if bad:
+            run.violation(f"{kind}:cross-instance-interference",
+                          f"{x['what']} epoch {e}, {how} (other instance: {(b if x is a else a)['what']}): yields {_s(got_r)}, its own stream is {_s(ref_r)}")
+            return
 
 
 _nonterminating = Counter()  # per kind; after a few budget overruns the kind is no longer driven (each overrun burns a whole budget)
@@ -746,7 +888,23 @@ def run_case(run, spec):
         run.count(f"skipped_{kind}_after_repeated_nontermination")
         return
     try:
-        {"cb": _run_cb, "semi": _run_semi_entry, "weighted": _run_weighted}[kind](run, spec)
+        fn = {"cb": _run_cb, "semi": _run_semi_entry, "weighted": _run_weighted}[kind]
+        res = fn(run, spec)
+        if res is None:
+            return
+        if not _numtype_check(run, spec, res):
+            return
+        comp = spec.get("companion")
+        if comp:
+            res2 = fn(run, comp)  # judged against ITS OWN dataset
+            if res2 is not None:
+                run.count("companion_instances_checked")
+                _cross_check(run, spec, res, res2)
+        if spec.get("relabel"):
+            # history: labels change on the SAME dataset object, NEW samplers are built and judged against the current labels
+            spec2 = _relabeled(spec)
+            _set_labels(res["ds"], spec2["classes"])
+            {"cb": _run_cb, "semi": _run_semi}[kind](run, spec2, ds=res["ds"])
     except core.StepBudgetExceeded:
         _nonterminating[kind] += 1
         raise
